@@ -144,7 +144,7 @@ func init() {
 	})
 	register(&propDef{
 		id:          "C12",
-		explanation: "Decides structural clauses of C12: (clear) in every exported Execute*, on every path, the first effect on each solution argument is a truncation / tree Clear, followed through the callees that receive it; (reset) every engine field written during an execution (computed from the code for clipperBase, ClipperOffset, RectClip64) has a re-initialisation proof: assigned by reset/prologue on every path, emptied by the epilogue that precedes every return, or a mode field assigned by every caller; the sorted-minima flag is cleared whenever the retained list grows; rectangle-clipper edge buckets are all emptied per path; (frozen-input) nothing reachable from an execution writes the retained Vertex/LocalMinima graph; (immutable) no library write can reach memory of a caller-supplied input slice. Identical state then implies identical results because the code is deterministic (C17). Also: (minima-flag) every addition to minimaList is dominated by isSortedMinimaList = false, in every declared method including those nothing in the package calls; (step) the round-join step fields are never assigned under a condition that reads one of them; (scratch) typestate of the offsetter's and the engine's scratch slices.",
+		explanation: "Decides structural clauses of C12: (replaced) every *Paths64/*PathsD result parameter of the seven Execute* entry points is truncated or overwritten on every path to a return, through callees (must-analysis), so an empty answer does not let the previous one show through; (flag-const) isSortedMinimaList is only ever assigned a constant — false where the list may have grown (before, or on every path after, the growth site), true right after the sort; (clear) in every exported Execute*, on every path, the first effect on each solution argument is a truncation / tree Clear, followed through the callees that receive it; (reset) every engine field written during an execution (computed from the code for clipperBase, ClipperOffset, RectClip64) has a re-initialisation proof: assigned by reset/prologue on every path, emptied by the epilogue that precedes every return, or a mode field assigned by every caller; the sorted-minima flag is cleared whenever the retained list grows; rectangle-clipper edge buckets are all emptied per path; (frozen-input) nothing reachable from an execution writes the retained Vertex/LocalMinima graph; (immutable) no library write can reach memory of a caller-supplied input slice. Identical state then implies identical results because the code is deterministic (C17). Also: (minima-flag) every addition to minimaList is dominated by isSortedMinimaList = false, in every declared method including those nothing in the package calls; (step) the round-join step fields are never assigned under a condition that reads one of them; (scratch) typestate of the offsetter's and the engine's scratch slices.",
 		notDecided:  []string{"independence of the order in which paths were added (geometric tie-breaking)", "conditionally assigned round-join step fields are argued by hand (stepSin/stepCos/stepsPerRad)", "callbacks and scale functions supplied by the caller"},
 		rules: []func(*Ctx){
 			ruleNoStaleGuard("C12.step", "ClipperOffset", []string{"stepSin", "stepCos", "stepsPerRad"}, 3, "the arc step depends on |delta|, the tolerance AND the sign of the group's delta; keeping it from the previous group or execution turns round joins the wrong way for an object used with deltas of both signs"),
@@ -226,7 +226,7 @@ func init() {
 func init() {
 	register(&propDef{
 		id:          "C03",
-		explanation: "Decides structural clauses of C03: (panics) the inventory of explicit panics is exactly the reviewed one (the documented precision-range panic, plus four index-error panics whose structural premises — index shape and guards — are re-checked); (make) every make() length/capacity is provably non-negative by interval analysis with dominating-branch refinement; (div) every integer division/remainder has a non-zero constant divisor; (flag) c.succeeded is assigned on every path through executeInternal and read only afterwards; (index) constant indices into slice parameters are guarded by the function or by every caller, and in the scan functions the number of variable-index reads without a dominating `index < len` guard on the same index value does not grow beyond the reviewed baseline; (ring) every ring walk exits on cursor==start (no one-node walks, no walks that cannot terminate on a well-formed ring). Does NOT decide nil-dereference freedom of the linked structures, variable-index safety or termination of invariant-dependent scans.",
+		explanation: "Decides structural clauses of C03: (panics) the inventory of explicit panics is exactly the reviewed one (the documented precision-range panic, plus four index-error panics whose structural premises — index shape and guards — are re-checked); (make) every make() length/capacity is provably non-negative by interval analysis with dominating-branch refinement; (div) every integer division/remainder has a non-zero constant divisor; (flag) c.succeeded is assigned on every path through executeInternal and read only afterwards; (index) constant indices into slice parameters are guarded by the function or by every caller, and in the scan functions the number of variable-index reads without a dominating `index < len` guard on the same index value does not grow beyond the reviewed baseline; (ring) every ring walk exits on cursor==start (no one-node walks, no walks that cannot terminate on a well-formed ring). Does NOT decide nil-dereference freedom of the linked structures, variable-index safety or termination of invariant-dependent scans. Also (horz.zero): with bot.X == top.X assumed, some return path of resetHorzDirection looks for vertexMax in the AEL — a zero-length horizontal given a constant heading never meets its maxima pair (non-termination); (div) an integer divisor is a non-zero constant or bounded away from zero by the dominating branches.",
 		notDecided:  []string{"nil-dereference freedom of AEL/SEL/OutPt links", "variable-index safety in general (only reads that were guarded on the confirmed tree are held to stay guarded: C03.index.var; 132 of 201 variable-index reads of slice parameters have no such guard and are not judged)", "termination of fixSelfIntersects / doMaxima / processIntersectList scans", "reachability of succeeded=false in addLocalMaxPoly", "memory/time blow-up for absurd radii (Ellipse step count)"},
 		rules: []func(*Ctx){
 			ruleVarIndex("C03.index.var", map[string]int{
@@ -244,7 +244,7 @@ func init() {
 	})
 	register(&propDef{
 		id:          "C06",
-		explanation: "Decides structural clauses of C06: (mirror) in getNextLocation, getIntersection and getLocation the Right arm is the left/right mirror image of the Left arm, Bottom of Top, and Top the diagonal image of Left — the clipper is equivariant under the rectangle's symmetries; (corner-live) no addCorner/addCornerLocation call is constant-dead; (fast) pathBounds is the bounds of the current path, disjoint paths are skipped and contained paths are returned as the input path itself; (bounds) the bounds accumulators start at the right extremes with independent per-axis updates. Also: (wrap) the predecessor of vertex 0 is the last vertex; (retire) tidyEdgePair reads the index of the slot it empties before relabelling the ring; (lag) checkEdges seeds its lagging edge set with the cyclic predecessor. (skip-only) a path is skipped only on a length test or because its bounds miss the rectangle. Does NOT decide the crossing-history logic of executeInternal nor checkEdges/tidyEdgePair.",
+		explanation: "Decides structural clauses of C06: (mirror) in getNextLocation, getIntersection and getLocation the Right arm is the left/right mirror image of the Left arm, Bottom of Top, and Top the diagonal image of Left — the clipper is equivariant under the rectangle's symmetries; (corner-live) no addCorner/addCornerLocation call is constant-dead; (fast) pathBounds is the bounds of the current path, disjoint paths are skipped and contained paths are returned as the input path itself; (bounds) the bounds accumulators start at the right extremes with independent per-axis updates. Also: (wrap) the predecessor of vertex 0 is the last vertex; (retire) tidyEdgePair reads the index of the slot it empties before relabelling the ring; (lag) checkEdges seeds its lagging edge set with the cyclic predecessor. (skip-only) a path is skipped only on a length test or because its bounds miss the rectangle. Does NOT decide the crossing-history logic of executeInternal nor checkEdges/tidyEdgePair. Also (inside.strict): while copying interior vertices getNextLocation leaves the Inside state towards a side only on the STRICT comparison against that side's own edge (explored with helpers and getLocation read inline), so a vertex exactly on an edge stays inside.",
 		notDecided:  []string{"crossing-history logic of executeInternal (firstCross/startLocs bookkeeping)", "checkEdges / tidyEdgePair re-joining (tidyEdgePair tests horizontal overlap on vertical edges: only region-equivalent differences could be produced)", "1-unit rounding of intersection points"},
 		rules: []func(*Ctx){
 			ruleRectMirror("C06.mirror"),
